@@ -142,6 +142,7 @@ class SimUpstream:
         self.max_inflight = 0
         self.gate = None                  # optional async callable(path, phase)
         self.on_request = None
+        self.shared = None                # {"cur": int, "max": int} shared by all repositories of a run
 
     def set(self, path: str, script=(), default: Resp | None = None):
         self.scripts[path] = list(script)
@@ -172,8 +173,13 @@ def make_sim_downloader_class():
             up = self.upstream
             p = str(source_path)
             r = up.next(p)
+            if up.on_request is not None:
+                up.on_request(p)
             up.inflight += 1
             up.max_inflight = max(up.max_inflight, up.inflight)
+            if up.shared is not None:
+                up.shared["cur"] += 1
+                up.shared["max"] = max(up.shared["max"], up.shared["cur"])
             try:
                 if up.gate is not None:
                     await up.gate(p, "request")
@@ -206,6 +212,8 @@ def make_sim_downloader_class():
                     yield DownloadResponse(_stream=mk, size=r.announced, date=date)
             finally:
                 up.inflight -= 1
+                if up.shared is not None:
+                    up.shared["cur"] -= 1
 
     return SimDownloader
 
